@@ -12,7 +12,7 @@ sys.path.insert(0, os.path.join(vlib.VERIF, "tools"))
 import robust_gen as rg
 import robust_run as rr
 
-MLS = ("robust",)
+MLS = ("robust", "wire")
 HARNESSES = ()
 LEVEL = "proof"
 THEOREMS = ["C10_invalid_disconnects_sender_only", "C10_invalid_sender_gone_others_untouched", "C10_nothing_after_corruption",
@@ -121,6 +121,10 @@ def run(ctx):
                     scripts += json.load(open(os.path.join(cdir, f)))
         n_plain, n_flood, n_timed, n_blast = (1800, 16, 18, 10) if tier == "quick" else (16000, 160, 220, 80)
         gen = rg.generate(rnd, n_plain, n_flood, n_timed, n_blast)
+        if tier != "quick":
+            big = rg.gen_quota(rnd, n=34000, cfg=rg.CFG_MAIN)      # the same with the DEFAULT max_outgoing_bytes (127 MiB)
+            big["kind"] = "quota:default-limit"
+            gen.append(big)
         have = {json.dumps(s["events"]) for s in scripts}
         scripts += [s for s in gen if json.dumps(s["events"]) not in have]
     lines = [script_line(s) for s in scripts]
@@ -131,6 +135,7 @@ def run(ctx):
     by_cfg = {}
     for i, (s, m) in enumerate(zip(scripts, model)):
         if m.startswith("!") or m.startswith("?"):
+            rep.violation("the model driver failed (%s) on a %s script" % (m[:40], s["kind"]), {"script": s, "names": "ml/robust driver"}, found_input=False)
             continue
         by_cfg.setdefault(json.dumps(s["cfg"], sort_keys=True), []).append((i, s, m))
     jobs = []
@@ -159,6 +164,11 @@ def run(ctx):
         dist[fam] = dist.get(fam, 0) + 1
         if res is None:
             continue
+        if res["problems"] and s["kind"].startswith("quota") and any(D1_TEXT in t for _, t in res["problems"]) and "C10-D1" in known:
+            # the daemon aborted in the way recorded as finding C10-D1 (model and property say it must survive)
+            rep.known(known["C10-D1"], {"script": s["kind"], "events": len(s["events"]), "daemon": [t for _, t in res["problems"] if D1_TEXT in t][0][:160]})
+            stats["known_finding_scripts"] = stats.get("known_finding_scripts", 0) + 1
+            continue
         st = res.get("stats", {})
         for k in ("seen", "gone", "hi"):
             stats[k] += st.get(k, 0)
@@ -170,10 +180,6 @@ def run(ctx):
             stats["retried_timed"] += 1
         if st.get("gone", 0) or st.get("seen", 0) > 1:
             nontrivial.add(lines[i])
-        if res["problems"] and s["kind"].startswith("quota") and any(D1_TEXT in t for _, t in res["problems"]) and "C10-D1" in known:
-            # the daemon aborted in the way recorded as finding C10-D1 (model and property say it must survive)
-            rep.known(known["C10-D1"], {"script": s["kind"], "events": len(s["events"]), "daemon": [t for _, t in res["problems"] if D1_TEXT in t][0][:160]})
-            continue
         for kind, text in res["problems"][:3]:
             n_viol += 1
             replay = {"script": s, "model": model[i][:4000], "observed": res.get("observed", [])[-6:], "cmd": "python3 tools/check.py C10 --replay <this file>"}
@@ -188,6 +194,16 @@ def run(ctx):
             s = scripts[d["after"]] if d.get("after") is not None else None
             rep.violation("dbus-daemon: exit status %s, alive before stop: %s, sanitizer/assert lines: %s" % (d["rc"], d["alive"], d["san"][:5]),
                           {"script": s, "log_tail": d["tail"], "cmd": "python3 tools/check.py C10 --replay <this file>"}, found_input=s is not None)
+    # which validity codes the corrupted messages of the mutation family hit (wire model of C01; statistics only)
+    reasons = {}
+    if info.get("model_wire"):
+        bl = ["load m " + b for s in scripts for b in s.get("bad", [])]
+        out, _ = vlib.run_lines(info["model_wire"], bl)
+        for o in out:
+            m = re.search(r"corrupted=(\d) reason=(-?\d+) msgs=(\S+)", o)
+            if m:
+                key = "still-valid" if m.group(1) == "0" and m.group(3) != "-" else ("incomplete" if m.group(1) == "0" else "invalid:" + m.group(2))
+                reasons[key] = reasons.get(key, 0) + 1
     lat_all = [d.get("lat_max", 0) for d in daemons]
     attack_bytes = sum(len(e) // 2 for s in scripts for e in s["events"] if e[0] == "W")
     rep.coverage.update({
@@ -203,6 +219,7 @@ def run(ctx):
         "samples": [{"kind": scripts[i]["kind"], "events": [e[:60] for e in scripts[i]["events"][:8]], "model": model[i][:160]} for i in range(0, len(scripts), max(1, len(scripts) // 8))][:8],
         "input_distribution": dict(dist, **{"hostile_messages_dispatched": stats["seen"], "disconnects_by_bus": stats["gone"], "registrations": stats["hi"],
                                             "attack_bytes": attack_bytes, "timed_scripts_retried": stats["retried_timed"],
+                                            "mutated_message_verdicts(validity code: count)": dict(sorted(reasons.items())),
                                             "concurrent_flood_bytes": stats.get("blast_bytes", 0), "round_trips_during_floods": stats.get("blast_roundtrips", 0),
                                             "worst_latency_during_floods_s": round(stats.get("blast_lat_max", 0.0), 4)}),
         "traces_validated_against_impl": len(results), "disagreements_checked": n_viol,
